@@ -82,6 +82,27 @@ theorem purity_eigen (n : ℕ) (F : Matrix (Fin n) (Fin n) ℂ) :
   · rw [Complex.re_sum]
     congr 1
 
+/-- the eight grids the code evaluates for two identical sources on one range: the six signal×idler
+grids coincide; the other two live on (idler axis)² and (signal axis)² -/
+theorem identical_sources_grids (J : ℝ → ℝ → Cx ℝ) (r : Steps2D ℝ) :
+    twoSrcOf J J r r = sixEq (sampled J r) (sampled J ⟨r.y, r.y⟩) (sampled J ⟨r.x, r.x⟩) := rfl
+
+/-- T1+T2 combined: for two identical sources (amplitude function `J`, any square range `r`, non-zero
+spectrum) the model of `hom_two_source_visibilities` returns `V_ss = V_ii = Σλ²/(Σλ)² = Σσ⁴/(Σσ²)²`,
+`λ = σ²` the eigenvalues of `FᴴF`, `F` the sampled complex amplitude matrix. -/
+theorem visibility_eq_purity (J : ℝ → ℝ → Cx ℝ) (n : ℕ) (r : Steps2D ℝ) (hx : r.x.n = n)
+    (hy : r.y.n = n) (hN : jsiNorm (sampled J r) ≠ 0) (δ1 δ2 δ3 : ℝ) :
+    let hG := Matrix.isHermitian_conjTranspose_mul_self (Fmat (sampled J r) n)
+    ∃ vsi, twoSourceVisibilities true r r (twoSrcOf J J r r) δ1 δ2 δ3 =
+      .ok ((∑ i, (hG.eigenvalues i) ^ 2) / (∑ i, hG.eigenvalues i) ^ 2,
+           (∑ i, (hG.eigenvalues i) ^ 2) / (∑ i, hG.eigenvalues i) ^ 2, vsi) := by
+  intro hG
+  have hs : (sampled J r).size = n * n := by rw [size_sampled]; simp [Steps2D.len, hx, hy]
+  obtain ⟨vsi, hv⟩ := identical_visibilities n r hx hy (sampled J r) (sampled J ⟨r.y, r.y⟩)
+    (sampled J ⟨r.x, r.x⟩) hs hN δ1 δ2 δ3
+  refine ⟨vsi, ?_⟩
+  rw [identical_sources_grids, hv, (purity_eigen n (Fmat (sampled J r) n)).2]
+
 /-- T3. `ss_ii_mem_unit`: for identical spectra on identical ranges the signal–signal and
 idler–idler rates lie in `[0, 1]` at every delay. -/
 theorem ss_ii_mem_unit (n : ℕ) (r1 r2 : Steps2D ℝ) (h1 : r1.len = n * n) (h2 : r2.len = n * n)
@@ -152,5 +173,14 @@ example : let f : Array (Cx ℝ) := #[⟨1, 0⟩, ⟨0, 1⟩, ⟨2, 0⟩, ⟨0, 
       (0 ≤ (twoRate 2 r r (sixEq f f f) 0.7).2.1 ∧ (twoRate 2 r r (sixEq f f f) 0.7).2.1 ≤ 1) := by
   intro f r
   exact ss_ii_mem_unit 2 r r rfl rfl f f f rfl rfl rfl (by norm_num [f, jsiNorm, sumList, Cx.normSq]) _
+
+/-- the hypotheses of `visibility_eq_purity` are satisfiable (constant amplitude on a 2×2 grid with
+unequal axes) -/
+example : ∃ p vsi, twoSourceVisibilities true (⟨⟨1, 2, 2⟩, ⟨3, 5, 2⟩⟩ : Steps2D ℝ) ⟨⟨1, 2, 2⟩, ⟨3, 5, 2⟩⟩
+    (twoSrcOf (fun _ _ => ⟨1, 0⟩) (fun _ _ => ⟨1, 0⟩) ⟨⟨1, 2, 2⟩, ⟨3, 5, 2⟩⟩ ⟨⟨1, 2, 2⟩, ⟨3, 5, 2⟩⟩) 0 0 0 =
+      .ok (p, p, vsi) := by
+  obtain ⟨vsi, h⟩ := visibility_eq_purity (fun _ _ => (⟨1, 0⟩ : Cx ℝ)) 2 ⟨⟨1, 2, 2⟩, ⟨3, 5, 2⟩⟩ rfl rfl
+    (by norm_num [sampled, Steps2D.len, jsiNorm, sumList, Cx.normSq, List.range, List.range.loop]) 0 0 0
+  exact ⟨_, vsi, h⟩
 
 end Spdc.Props.C10
